@@ -814,6 +814,14 @@ fn mode_c19(thorough: bool, jobs: usize) -> (usize, usize, Vec<Failure>, serde_j
 #[derive(Default)]
 struct Rec {
     versions: Vec<(VersionId, VersionId, Vec<u8>)>,
+    /// urgency answered to every accepted add_version: 0 none, 1 low, 2 high
+    urgency: u8,
+    /// snapshots received: (version id, bytes, urgency in force, number of versions at that moment)
+    snapshots: Vec<(VersionId, Vec<u8>, u8, usize)>,
+    /// snapshot offered by get_snapshot
+    offer: Option<(VersionId, Vec<u8>)>,
+    /// versions with an index below this have been discarded
+    floor: usize,
 }
 struct RecServer(Arc<Mutex<Rec>>);
 
@@ -827,20 +835,28 @@ impl Server for RecServer {
         }
         let id = Uuid::new_v4();
         r.versions.push((id, parent, seg));
-        Ok((AddVersionResult::Ok(id), SnapshotUrgency::None))
+        let u = match r.urgency {
+            0 => SnapshotUrgency::None,
+            1 => SnapshotUrgency::Low,
+            _ => SnapshotUrgency::High,
+        };
+        Ok((AddVersionResult::Ok(id), u))
     }
     async fn get_child_version(&mut self, parent: VersionId) -> Result<GetVersionResult, taskchampion::Error> {
         let r = self.0.lock().unwrap();
-        match r.versions.iter().find(|v| v.1 == parent) {
+        match r.versions.iter().skip(r.floor).find(|v| v.1 == parent) {
             Some(v) => Ok(GetVersionResult::Version { version_id: v.0, parent_version_id: v.1, history_segment: v.2.clone() }),
             None => Ok(GetVersionResult::NoSuchVersion),
         }
     }
-    async fn add_snapshot(&mut self, _v: VersionId, _s: Snapshot) -> Result<(), taskchampion::Error> {
+    async fn add_snapshot(&mut self, v: VersionId, s: Snapshot) -> Result<(), taskchampion::Error> {
+        let mut r = self.0.lock().unwrap();
+        let (u, n) = (r.urgency, r.versions.len());
+        r.snapshots.push((v, s, u, n));
         Ok(())
     }
     async fn get_snapshot(&mut self) -> Result<Option<(VersionId, Snapshot)>, taskchampion::Error> {
-        Ok(None)
+        Ok(self.0.lock().unwrap().offer.clone())
     }
 }
 
@@ -1117,12 +1133,257 @@ fn mode_c14(thorough: bool, jobs: usize) -> (usize, usize, Vec<Failure>, serde_j
     (total, ran, fails, serde_json::json!({"edit_steps": alpha.len(), "depth": depth, "hand_written_versions": 15, "timestamps": "whole seconds, nanoseconds, before 1970, year 9999"}))
 }
 
+
+// ------------------------------------------------------------------------------------------------------------------ C12
+
+type State = HashMap<Uuid, HashMap<String, String>>;
+
+/// replay of version documents, written independently of the crate (serde_json::Value only)
+fn replay_versions(versions: &[(VersionId, VersionId, Vec<u8>)]) -> Result<State, String> {
+    let mut st: State = HashMap::new();
+    for (id, _, seg) in versions {
+        let doc: serde_json::Value = serde_json::from_slice(seg).map_err(|e| format!("version {id}: {e}"))?;
+        let list = match &doc {
+            serde_json::Value::Array(a) => a.clone(),
+            serde_json::Value::Object(o) => o.get("operations").and_then(|x| x.as_array()).cloned().ok_or(format!("version {id}: no operations"))?,
+            _ => return Err(format!("version {id}: not a list")),
+        };
+        for el in list {
+            let (ty, d) = el.as_object().and_then(|o| o.iter().next()).map(|(a, b)| (a.clone(), b.clone())).ok_or("bad element")?;
+            let u = Uuid::parse_str(d["uuid"].as_str().unwrap_or("")).map_err(|e| e.to_string())?;
+            match ty.as_str() {
+                "Create" => {
+                    st.entry(u).or_default();
+                }
+                "Delete" => {
+                    st.remove(&u);
+                }
+                "Update" => {
+                    if let Some(t) = st.get_mut(&u) {
+                        let p = d["property"].as_str().unwrap_or("").to_string();
+                        match d["value"].as_str() {
+                            Some(v) => {
+                                t.insert(p, v.to_string());
+                            }
+                            None => {
+                                t.remove(&p);
+                            }
+                        }
+                    }
+                }
+                other => return Err(format!("operation type {other}")),
+            }
+        }
+    }
+    Ok(st)
+}
+
+/// the snapshot format as documented: zlib-compressed JSON object mapping task ids to property maps; decoded independently
+fn decode_snapshot(bytes: &[u8]) -> Result<State, String> {
+    use std::io::Read;
+    let mut text = String::new();
+    flate2::read::ZlibDecoder::new(bytes).read_to_string(&mut text).map_err(|e| format!("not zlib / not UTF-8: {e}"))?;
+    let doc: serde_json::Value = serde_json::from_str(&text).map_err(|e| format!("not JSON: {e}"))?;
+    let o = doc.as_object().ok_or("not a JSON object")?;
+    let mut st: State = HashMap::new();
+    for (k, v) in o {
+        let u = Uuid::parse_str(k).map_err(|e| format!("key {k:?}: {e}"))?;
+        let m = v.as_object().ok_or(format!("task {k}: not an object"))?;
+        let mut t = HashMap::new();
+        for (p, x) in m {
+            t.insert(p.clone(), x.as_str().ok_or(format!("task {k}: property {p:?} is not a string"))?.to_string());
+        }
+        st.insert(u, t);
+    }
+    Ok(st)
+}
+
+async fn state_of<S: Storage>(rep: &mut Replica<S>) -> State {
+    rep.all_task_data().await.unwrap().into_iter().map(|(u, t)| (u, t.iter().map(|(a, b)| (a.clone(), b.clone())).collect())).collect()
+}
+
+/// seq: edits on replica A (Edit::Sync syncs A); `urgency`/`avoid` fixed for the scenario; afterwards replica B edits and syncs, then
+/// the snapshot-related statements are checked
+async fn c12_one(seq: &[Edit], urgency: u8, avoid: bool) -> Result<(), (String, String, String)> {
+    let rec = Arc::new(Mutex::new(Rec { urgency, ..Default::default() }));
+    let mut server: Box<dyn Server> = Box::new(RecServer(rec.clone()));
+    let mut a = Replica::new(InMemoryStorage::new());
+    let mut shadow: HashMap<Uuid, TaskMap> = HashMap::new();
+    let mut all: Vec<Edit> = seq.to_vec();
+    all.push(Edit::Sync);
+    for (i, e) in all.iter().enumerate() {
+        let at = format!("step #{i} {e:?} (urgency {urgency}, avoid_snapshots {avoid})");
+        let mut ops = Operations::new();
+        match e {
+            Edit::Create(u) => {
+                if shadow.contains_key(&uuid_of(*u)) {
+                    continue;
+                }
+                ops.push(Operation::Create { uuid: uuid_of(*u) });
+                shadow.insert(uuid_of(*u), TaskMap::new());
+            }
+            Edit::Update(u, p, v, secs, nanos) => {
+                let Some(m) = shadow.get_mut(&uuid_of(*u)) else { continue };
+                let prop = prop_of(*p);
+                let val = v.map(s_of);
+                ops.push(Operation::Update { uuid: uuid_of(*u), property: prop.clone(), old_value: m.get(&prop).cloned(), value: val.clone(), timestamp: Utc.timestamp_opt(*secs, *nanos).unwrap() });
+                match val {
+                    Some(x) => {
+                        m.insert(prop, x);
+                    }
+                    None => {
+                        m.remove(&prop);
+                    }
+                }
+            }
+            Edit::Delete(u) => {
+                let Some(m) = shadow.remove(&uuid_of(*u)) else { continue };
+                ops.push(Operation::Delete { uuid: uuid_of(*u), old_task: m });
+            }
+            Edit::UndoPoint => ops.push(Operation::UndoPoint),
+            Edit::Sync => {
+                let before = rec.lock().unwrap().snapshots.len();
+                a.sync(&mut server, avoid).await.map_err(|e| (at.clone(), format!("sync failed: {e}"), "sync succeeds".into()))?;
+                let r = rec.lock().unwrap();
+                for (v, bytes, u, nvers) in r.snapshots.iter().skip(before) {
+                    let threshold = if avoid { 2 } else { 1 };
+                    if *u < threshold {
+                        return Err((at, format!("a snapshot was uploaded at urgency {u}"), format!("none below the replica's threshold {threshold}")));
+                    }
+                    let Some(pos) = r.versions.iter().position(|x| x.0 == *v) else {
+                        return Err((at, format!("snapshot labelled {v}"), "the id of a version on the chain".into()));
+                    };
+                    if pos + 1 != *nvers {
+                        return Err((at, format!("snapshot labelled with version #{pos} of {nvers}"), "the version just accepted".into()));
+                    }
+                    let want = replay_versions(&r.versions[..=pos]).map_err(|e| (at.clone(), e, "well-formed versions".into()))?;
+                    let got = decode_snapshot(bytes).map_err(|e| (at.clone(), e, "zlib-compressed JSON object of tasks".into()))?;
+                    if got != want {
+                        return Err((at, format!("snapshot contains {got:?}"), format!("exactly the task set of the chain up to its version: {want:?}")));
+                    }
+                }
+                continue;
+            }
+        }
+        a.commit_operations(ops).await.map_err(|e| (at, format!("commit failed: {e}"), "commit succeeds".into()))?;
+    }
+    // a second replica adds versions after the snapshot point
+    let mut b = Replica::new(InMemoryStorage::new());
+    b.sync(&mut server, true).await.map_err(|e| ("replica B first sync".to_string(), format!("{e}"), "ok".into()))?;
+    {
+        let mut ops = Operations::new();
+        let mut t = b.create_task(uuid_of(7), &mut ops).await.unwrap();
+        t.set_description("from b \"é\"".into(), &mut ops).unwrap();
+        b.commit_operations(ops).await.unwrap();
+        rec.lock().unwrap().urgency = 0;
+        b.sync(&mut server, true).await.map_err(|e| ("replica B second sync".to_string(), format!("{e}"), "ok".into()))?;
+    }
+    let (versions, snaps) = {
+        let r = rec.lock().unwrap();
+        (r.versions.clone(), r.snapshots.clone())
+    };
+    let whole = replay_versions(&versions).map_err(|e| ("replaying the chain".to_string(), e, "well-formed versions".into()))?;
+    for (v, bytes, _, _) in &snaps {
+        let pos = versions.iter().position(|x| x.0 == *v).unwrap();
+        // a server that kept this snapshot and discarded everything before it
+        let rec2 = Arc::new(Mutex::new(Rec { versions: versions.clone(), offer: Some((*v, bytes.clone())), floor: pos + 1, ..Default::default() }));
+        let mut server2: Box<dyn Server> = Box::new(RecServer(rec2.clone()));
+        let mut fresh = Replica::new(InMemoryStorage::new());
+        let at = format!("a fresh replica synced from the snapshot of version #{pos} and the later versions");
+        fresh.sync(&mut server2, false).await.map_err(|e| (at.clone(), format!("sync failed: {e}"), "sync succeeds".into()))?;
+        let got = state_of(&mut fresh).await;
+        if got != whole {
+            return Err((at, format!("{got:?}"), format!("the state of a replica that replays the whole chain: {whole:?}")));
+        }
+        // a replica that already holds data never has it replaced by a snapshot
+        let mut holder = Replica::new(InMemoryStorage::new());
+        {
+            let mut ops = Operations::new();
+            let mut t = holder.create_task(uuid_of(8), &mut ops).await.unwrap();
+            t.set_description("mine".into(), &mut ops).unwrap();
+            holder.commit_operations(ops).await.unwrap();
+        }
+        let mut server3: Box<dyn Server> = Box::new(RecServer(Arc::new(Mutex::new(Rec { versions: versions.clone(), offer: Some((*v, bytes.clone())), ..Default::default() }))));
+        let _ = holder.sync(&mut server3, false).await;
+        let st = state_of(&mut holder).await;
+        if st.get(&uuid_of(8)).and_then(|t| t.get("description")).map(|s| s.as_str()) != Some("mine") {
+            return Err(("a replica holding a task syncs with a server that offers a snapshot".into(), format!("{st:?}"), "its own task is still there".into()));
+        }
+    }
+    Ok(())
+}
+
+fn mode_c12(thorough: bool, jobs: usize) -> (usize, usize, Vec<Failure>, serde_json::Value) {
+    let mut alpha = vec![Edit::Create(1), Edit::Create(2), Edit::Delete(1), Edit::UndoPoint, Edit::Sync];
+    for (u, p, v) in [(1u8, 0u8, Some(2u8)), (1, 0, None), (1, 1, Some(0)), (2, 2, Some(2)), (2, 3, Some(1))] {
+        alpha.push(Edit::Update(u, p, v, 1_700_000_000, 0));
+    }
+    let depth = if thorough { 5 } else { 4 };
+    let mut seqs: Vec<Vec<Edit>> = Vec::new();
+    fn rec(alpha: &[Edit], depth: usize, cur: &mut Vec<Edit>, out: &mut Vec<Vec<Edit>>) {
+        out.push(cur.clone());
+        if cur.len() == depth {
+            return;
+        }
+        for m in alpha {
+            cur.push(m.clone());
+            rec(alpha, depth, cur, out);
+            cur.pop();
+        }
+    }
+    rec(&alpha, depth, &mut Vec::new(), &mut seqs);
+    let combos: Vec<(u8, bool)> = vec![(0, false), (1, false), (2, false), (1, true), (2, true)];
+    let total = seqs.len() * combos.len();
+    let seqs = Arc::new(seqs);
+    let next = Arc::new(std::sync::atomic::AtomicUsize::new(0));
+    let mut hs = Vec::new();
+    for _ in 0..jobs {
+        let seqs = seqs.clone();
+        let next = next.clone();
+        let combos = combos.clone();
+        hs.push(std::thread::spawn(move || {
+            let rt = rt();
+            let mut fails = Vec::new();
+            let mut ran = 0usize;
+            loop {
+                let i = next.fetch_add(32, std::sync::atomic::Ordering::Relaxed);
+                if i >= seqs.len() || fails.len() >= 3 {
+                    break;
+                }
+                for s in &seqs[i..(i + 32).min(seqs.len())] {
+                    for (u, avoid) in &combos {
+                        ran += 1;
+                        let input = serde_json::json!({"seq": s, "urgency": u, "avoid_snapshots": avoid});
+                        match catch_unwind(AssertUnwindSafe(|| rt.block_on(c12_one(s, *u, *avoid)))) {
+                            Ok(Ok(())) => {}
+                            Ok(Err((at, got, expected))) => fails.push(Failure { mode: "c12".into(), input, at, got, expected }),
+                            Err(e) => {
+                                let msg = e.downcast_ref::<String>().cloned().or_else(|| e.downcast_ref::<&str>().map(|s| s.to_string())).unwrap_or_default();
+                                fails.push(Failure { mode: "c12".into(), input, at: "somewhere".into(), got: format!("panic: {msg}"), expected: "no panic".into() })
+                            }
+                        }
+                    }
+                }
+            }
+            (ran, fails)
+        }));
+    }
+    let mut ran = 0;
+    let mut fails = Vec::new();
+    for h in hs {
+        let (r, f) = h.join().unwrap();
+        ran += r;
+        fails.extend(f);
+    }
+    (total, ran, fails, serde_json::json!({"edit_steps": alpha.len(), "depth": depth, "urgency_x_avoid": combos.len(), "then": "a second replica adds a version; fresh replica from every snapshot + later versions; a replica holding data"}))
+}
+
 fn main() {
     let args: Vec<String> = std::env::args().collect();
     let get = |k: &str| args.iter().position(|a| a == k).and_then(|i| args.get(i + 1)).cloned();
     let out = PathBuf::from(get("--out").expect("--out DIR"));
     std::fs::create_dir_all(&out).unwrap();
-    let mode = get("--mode").expect("--mode c14|c18|c19");
+    let mode = get("--mode").expect("--mode c12|c14|c18|c19");
     // panics are captured and reported as failures: keep the default hook quiet
     if std::env::var_os("VERIF_DYN_LOUD").is_none() {
         std::panic::set_hook(Box::new(|_| {}));
@@ -1144,6 +1405,15 @@ fn main() {
                 match catch_unwind(AssertUnwindSafe(|| r.block_on(c19_one(b, &s)))) {
                     Ok(Ok(())) => Ok(()),
                     Ok(Err((at, g, e))) => Err(format!("{at}: got {g}, expected {e}")),
+                    Err(_) => Err("panic".into()),
+                }
+            }
+            "c12" => {
+                let sq: Vec<Edit> = serde_json::from_value(input["seq"].clone()).unwrap();
+                let u = input["urgency"].as_u64().unwrap_or(0) as u8;
+                let av = input["avoid_snapshots"].as_bool().unwrap_or(false);
+                match catch_unwind(AssertUnwindSafe(|| r.block_on(c12_one(&sq, u, av)))) {
+                    Ok(x) => x.map_err(|(a, g, e)| format!("{a}: got {g}, expected {e}")),
                     Err(_) => Err("panic".into()),
                 }
             }
@@ -1181,6 +1451,7 @@ fn main() {
         "c18" => mode_c18(thorough, jobs),
         "c19" => mode_c19(thorough, jobs),
         "c14" => mode_c14(thorough, jobs),
+        "c12" => mode_c12(thorough, jobs),
         other => panic!("unknown mode {other}"),
     };
     fails.sort_by_key(|f| f.input.to_string().len());
